@@ -444,6 +444,12 @@ def run(ctx):
             found_input = True
         ctx.violation(name, text, no_input=not has_input)
 
+    from .. import c03detect                       # (round 9 covgap) the broken-'fmt ' detector vs Sf.AudioDetect, LIST/exif family
+    for (name, text, has_input) in c03detect.run(ctx, known):
+        if has_input:
+            found_input = True
+        ctx.violation(name, text, no_input=not has_input)
+
     kf_active = replay_known(ctx)
 
     fmts = writable_formats(ctx, majors, subs)
